@@ -1,20 +1,25 @@
 ----------------------------- MODULE GenSecurity ----------------------------
 (* Generators for C25 (see Security.tla).
-   EmitL: one line per (blowup, e, g, fb, cr) with Conj over every query count 1..MaxQ.
+   EmitL: one line per (blowup, e, g, field encoding, cr) with Conj over every query count 1..MaxQ, the
+          field size being the bit length of the encoding's modulus VALUE.
    EmitO: option-set cases — the proof's options p, an accepted list S of 0..2 option tuples drawn from
           a base tuple and its ten one-field variants (queries, blowup, grinding, extension, folding,
           remainder degree, the two batching methods, the two partition parameters) — with the verdict
           InSet(p, S). *)
-EXTENDS Security
+EXTENDS Security, SequencesExt
 
-CONSTANTS Blowups, Exts, Grindings, FieldBits, CRs, MaxQ
+CONSTANTS Blowups, Exts, Grindings, FieldBits, CRs, MaxQ,
+          OtherBlowups, OtherGrindings     \* the (smaller) grid used for the non-built-in field encodings
 
 VARIABLE case
 
-InitL == case \in [b : Blowups, e : Exts, g : Grindings, fb : FieldBits, cr : CRs]
+InitL == case \in [b : Blowups, e : Exts, g : Grindings, fld : BuiltinFlds, cr : CRs]
+                 \cup [b : OtherBlowups, e : Exts, g : OtherGrindings, fld : Flds \ BuiltinFlds, cr : CRs]
 SpecL == InitL /\ [][UNCHANGED case]_case
-EmitL == PrintT(<<"REPLAY", ToJson([b |-> case.b, e |-> case.e, g |-> case.g, fb |-> case.fb, cr |-> case.cr,
-                                     bits |-> [i \in 1..MaxQ |-> Conj(case.b, case.e, case.g, i, case.fb, case.cr)]])>>)
+EmitL == PrintT(<<"REPLAY", ToJson([b |-> case.b, e |-> case.e, g |-> case.g, cr |-> case.cr,
+                                     fld |-> case.fld, src |-> SrcOf(case.fld), mod |-> ModOf(case.fld),
+                                     fb |-> FieldBitsOf(case.fld),
+                                     bits |-> [i \in 1..MaxQ |-> Conj(case.b, case.e, case.g, i, FieldBitsOf(case.fld), case.cr)]])>>)
 
 Fields == {"q", "b", "g", "e", "fold", "rem", "bc", "bd", "np", "hr"}
 \* two valid values per field
@@ -37,13 +42,13 @@ EmitO == PrintT(<<"REPLAY", ToJson([p |-> case.p, S |-> case.S, accept |-> InSet
 (***************************************************************************)
 \* ("end" is a last step with one value: the simulator evaluates the invariant on every successor, so the
 \* complete cell is printed once per behaviour)
-CellFields == <<"b", "fb", "cr", "ll", "nc", "w", "fold", "rem", "bc", "bd", "end">>
-CellVals(f) == CASE f = "b" -> {2, 4, 8, 16, 32, 64, 128}
-                 [] f = "fb" -> {62, 64, 128}
+CellFields == <<"fld", "b", "cr", "ll", "nc", "w", "fold", "rem", "bc", "bd", "end">>
+CellVals(f) == CASE f = "fld" -> Flds
+                 [] f = "b" -> {2, 4, 8, 16, 32, 64, 128}
                  [] f = "cr" -> {96, 124, 128}
                  [] f = "ll" -> {3, 4, 5, 6, 8, 10, 11, 13, 16, 20, 22}     \* trace length 2^ll
                  [] f = "nc" -> {1, 2, 3, 10, 100, 1000}                     \* constraints
-                 [] f = "w" -> {1, 2, 5, 40, 100, 255}                       \* trace width
+                 [] f = "w" -> {1, 2, 5, 40, 100, 254}                       \* trace width
                  [] f = "fold" -> {2, 4, 8, 16}
                  [] f = "rem" -> {0, 1, 7, 31, 127, 255}
                  [] f = "bc" -> {0, 1, 2}
@@ -53,14 +58,35 @@ InitK == case = <<>>
 NextK == /\ Len(case) < Len(CellFields)
          /\ \E v \in CellVals(CellFields[Len(case) + 1]) : case' = Append(case, v)
 SpecK == InitK /\ [][NextK]_case
-EmitK == Len(case) = Len(CellFields) =>
-           PrintT(<<"REPLAY", ToJson([i \in {CellFields[j] : j \in 1..Len(CellFields)} |->
-                                        case[CHOOSE j \in 1..Len(CellFields) : CellFields[j] = i]])>>)
+CellRec(c) == [i \in {CellFields[j] : j \in 1..Len(CellFields)} |->
+                 c[CHOOSE j \in 1..Len(CellFields) : CellFields[j] = i]]
+\* the cell carries the encoding the specification attaches to its field name
+WithField(r) == [k \in DOMAIN r \cup {"src", "mod", "fbits"} |->
+                   CASE k = "src" -> SrcOf(r.fld) [] k = "mod" -> ModOf(r.fld) [] k = "fbits" -> FieldBitsOf(r.fld)
+                     [] OTHER -> r[k]]
+EmitK == Len(case) = Len(CellFields) => PrintT(<<"REPLAY", ToJson(WithField(CellRec(case)))>>)
+
+\* cells that are always recorded: one per field encoding (the other parameters cycle through their
+\* values with the position of the encoding) and three corners of the grid
+FldSeq == SetToSeq(Flds)
+Pick(S, j) == LET q == SetToSeq(S) IN q[(j % Len(q)) + 1]
+FixedCells ==
+  {[fld |-> FldSeq[j], b |-> Pick(CellVals("b"), j), cr |-> Pick(CellVals("cr"), j), ll |-> Pick(CellVals("ll"), 2 * j),
+    nc |-> Pick(CellVals("nc"), j), w |-> Pick(CellVals("w"), j), fold |-> Pick(CellVals("fold"), j),
+    rem |-> Pick(CellVals("rem"), j), bc |-> j % 3, bd |-> (j \div 3) % 3, end |-> 0] : j \in 1..Len(FldSeq)}
+  \cup {[fld |-> "f62", b |-> 2, cr |-> 96, ll |-> 3, nc |-> 1, w |-> 1, fold |-> 2, rem |-> 0, bc |-> 0, bd |-> 0, end |-> 0],
+        [fld |-> "f128", b |-> 128, cr |-> 128, ll |-> 22, nc |-> 1000, w |-> 255, fold |-> 16, rem |-> 255, bc |-> 1, bd |-> 2, end |-> 0],
+        [fld |-> "f64", b |-> 4, cr |-> 128, ll |-> 20, nc |-> 100, w |-> 2, fold |-> 2, rem |-> 127, bc |-> 0, bd |-> 0, end |-> 0]}
+InitF == case \in FixedCells
+SpecF == InitF /\ [][UNCHANGED case]_case
+EmitF == PrintT(<<"REPLAY", ToJson(WithField(case))>>)
 
 AllBlowups == {2, 4, 8, 16, 32, 64, 128}
 AllExts == {1, 2, 3}
 AllGrindings == 0..32
 SomeGrindings == {0, 1, 7, 16, 31, 32}
 AllFieldBits == {62, 64, 128}
+FewGrindings == {0, 16, 32}
+SomeBlowups == {2, 8, 128}
 AllCRs == {96, 124, 128}
 =============================================================================
